@@ -395,6 +395,28 @@ def gen_paused_requests(tier, seed):
     return reqs
 
 
+# ------------------------------------------------------------------ writers shared between goroutines
+def gen_shared_writer_requests(tier, seed):
+    """N goroutines x many messages of distinct (type, length, id, payload byte) through ONE writer:
+    msgWriter.Write (via w) and one connected Client's SendNoWait/write loop (via c)"""
+    rnd = random.Random(seed ^ 0x3A12ED)
+    thorough = tier == "thorough"
+    reqs = []
+    for via in ("w", "c"):
+        for par in (1, 2, 4, 8, 16):
+            for rep in range(6 if thorough else 3):
+                n = rnd.choice([16, 64, 256]) if par > 1 else 8
+                items, mid = [], rnd.randrange(1, 1000)
+                for _ in range(n):
+                    typ = rnd.randrange(1, 900) if rnd.random() < 0.9 else rnd.choice([0, 950, 1000, 1023, 1024, 2000])
+                    if via == "c" and typ in (14, 46, 47):
+                        typ = 62
+                    items.append("%d:%d:%d:%d" % (typ, rnd.choice([0, 0, 1, 3, 8, 40, 200]), mid, rnd.randrange(256)))
+                    mid += rnd.randrange(1, 70000)
+                reqs.append("mwr %s %d %d %s" % (via, par, rnd.choice([1, 2]) if via == "c" else rnd.randrange(8), ";".join(items)))
+    return reqs
+
+
 def gen_requests(tier, seed):
     rnd = random.Random(seed)
     thorough = tier == "thorough"
@@ -467,6 +489,8 @@ def expand(req):
     if f[0] == "stl":
         return [dict(kind="sth", cfg=f[1], hist=f[2], request=req)] + \
                [dict(kind="stl", cfg=f[1], hist=f[2], bytes=list(bytes.fromhex(h))) for h in f[3].split(";")]
+    if f[0] == "mwr":
+        return [dict(kind="mwr", request=req)]
     if f[0] == "rpz":
         return [dict(kind="rpz", cfg=f[1], hist=f[2], errkind=f[3], pieces=f[4])]
     if f[0] == "snd":
@@ -493,7 +517,7 @@ def expand(req):
 def single_request(case):
     if case.get("batch"):
         return case["batch"]
-    if case["kind"] in ("sth", "stv"):
+    if case["kind"] in ("sth", "stv", "mwr"):
         return case["request"]
     if case["kind"] == "stl":
         return "stl %s %s %s" % (case["cfg"], case["hist"], bytes(case["bytes"]).hex())
@@ -526,6 +550,8 @@ def judge_case(case, g, o):
         return judge_send(case, g, o)
     if case["kind"] == "rpz":
         return judge_paused(case, g, o)
+    if case["kind"] == "mwr":
+        return judge_shared_writer(case, g, o)
     if case["kind"] == "wfl":
         return judge_write_fault(case, g, o)
     if not case.get("batch"):
@@ -742,6 +768,42 @@ def judge_paused(case, g, o):
     if offered:
         return ("paused-read:handler-header-differs", "%s: reported %s but the handlers were offered %s" % (ctx, tok, offered), True)
     return ("model-mismatch:paused-read", "%s: the read side reports %s (an initial part of the frame headers); the model says %s" % (ctx, g, o), False)
+
+
+def judge_shared_writer(case, g, o):
+    """several goroutines writing through one writer: every header on the wire must be the encoding
+    of one of the messages written, each accepted message exactly once, its payload behind it"""
+    f = case["request"].split()
+    via, par, ver = f[1], int(f[2]), int(f[3])
+    name = "msgWriter.Write on one msgWriter" if via == "w" else "SendNoWait on one connected Client (version %d)" % ver
+    want = {}
+    for it in f[4].split(";"):
+        t, l, i, fl = map(int, it.split(":"))
+        enc = spec_encode(2 if via == "c" and t in (46, 47) else ver, t, l, i)
+        if enc not in (None, "E"):
+            want[enc] = want.get(enc, 0) + 1
+    ctx = "%d calls of %s from %d goroutine(s)" % (f[4].count(";") + 1, name, par)
+    toks = g.split(" ")
+    rest = [t for t in toks if t.startswith("!rest=")]
+    frames = [t for t in toks if ":" in t and not t.startswith("!")]
+    seen = {}
+    for t in frames:
+        hx, _, ok = t.partition(":")
+        seen[hx] = seen.get(hx, 0) + 1
+        if hx not in want:
+            return ("concurrent-write:header-of-no-written-message:" + via,
+                    "%s: the stream contains the header %s (reads as %s), which is the encoding of none of the messages written" % (
+                        ctx, hx, spec_decode(list(bytes.fromhex(hx)))), True)
+        if ok != "ok":
+            return ("concurrent-write:payload-of-another-message:" + via,
+                    "%s: the header %s (%s) is followed by payload bytes of another message" % (ctx, hx, spec_decode(list(bytes.fromhex(hx)))), True)
+    for hx, n in want.items():
+        if seen.get(hx, 0) != n:
+            return ("concurrent-write:message-count:" + via, "%s: the message with header %s (%s) is on the wire %d time(s), written %d time(s)%s" % (
+                ctx, hx, spec_decode(list(bytes.fromhex(hx))), seen.get(hx, 0), n, "; the stream does not end on a frame boundary" if rest else ""), True)
+    if rest:
+        return ("concurrent-write:trailing-bytes:" + via, "%s: after the last frame the stream carries %s" % (ctx, rest[0][6:70]), True)
+    return ("model-mismatch:shared-writer", "%s: every written message is on the wire exactly once; Go answers %s, the model %s" % (ctx, g[:200], o[:200]), False)
 
 
 def judge_single(case, g, o):
@@ -1000,6 +1062,8 @@ def run(tier, seed, replay=None):
         "carrying the ID it received; CloseConnection (14) ends a request line because the write loop stops after it by design",
         "paused streams: 'a pause longer than the read deadline' is the in-memory connection returning a deadline error from Read (0 bytes) between two pieces, without real waiting; "
         "in the waiting-for-the-first-message state the first frame is a well-formed connection-success event",
+        "shared writers: goroutine interleavings are whatever the scheduler produces in that run (the sink yields inside every Write); a torn header that no schedule of the run "
+        "produces is not seen - the data race itself is C20's business, the bytes are judged here",
         "failing connections: faults are injected by the in-memory connection (Write takes k bytes and returns an error); a net.Conn returns n < len(p) only with an error; "
         "'the write loop carried on' is observed through a marker message queued behind the message under test",
         "the Header version field (uint8) is not refused by the encoder when above 7; the property does not demand it (Example C19_note_version_unchecked)",
@@ -1029,12 +1093,12 @@ def run(tier, seed, replay=None):
     if reqs is None:
         st_reqs, n_states = gen_state_requests(tier, seed)
         reqs = gen_requests(tier, seed) + gen_batch_requests(tier, seed) + gen_frag_requests(tier, seed) + st_reqs \
-            + gen_send_requests(tier, seed) + gen_paused_requests(tier, seed)
+            + gen_send_requests(tier, seed) + gen_paused_requests(tier, seed) + gen_shared_writer_requests(tier, seed)
         # the list is answered in 4 contiguous parts: deal the requests out so that every part gets
         # an even share of every kind
         reqs = [r for k in range(4) for r in reqs[k::4]]
 
-    evals = nontriv = frag_headers = batch_samples = state_samples = send_samples = paused_samples = 0
+    evals = nontriv = frag_headers = batch_samples = state_samples = send_samples = paused_samples = writer_samples = 0
     dist, samples = {}, []
     if reqs:
         text = "\n".join(reqs) + "\n"
@@ -1083,6 +1147,14 @@ def run(tier, seed, replay=None):
                 dist[kind] = dist.get(kind, 0) + ntok * npat
                 nontriv += (ntok - rej) * npat
                 frag_headers += ntok
+            elif kind == "mwr":
+                nfr = sum(1 for t in g.split(" ") if t.endswith((":ok", ":bad")))
+                evals += req.count(";") + 1
+                dist[kind] = dist.get(kind, 0) + req.count(";") + 1
+                nontriv += nfr
+                if writer_samples < 2 and req.startswith(("mwr w 4 ", "mwr c 4 ")) and writer_samples == (req[4] == "c"):
+                    writer_samples += 1
+                    samples.append(dict(request=req[:300], go=g[:300], model=o[:300]))
             elif kind == "rpz":
                 evals += 1
                 dist[kind] = dist.get(kind, 0) + 1
@@ -1125,6 +1197,8 @@ def run(tier, seed, replay=None):
                 continue        # enough witnesses of this kind examined; the count is reported
             cases = expand(req)
             gt, ot = g.split(" "), o.split(" ")
+            if req.startswith("mwr"):
+                gt, ot = [g], [o]      # judged as one stream
             if len(gt) != len(cases) or len(ot) != len(cases):
                 res.violation("harness-format", "answer shape differs for request %r: go %r model %r" % (req, g[:200], o[:200]),
                               dict(kind="header", requests=[req]), False)
@@ -1187,7 +1261,9 @@ def run(tier, seed, replay=None):
              "closed pipe, broken pipe; later writes accepted or failing; clients with and without timeout; several states), writeHeader directly and a message through the write loop "
              "followed by a marker message: what is reported and what the peer received; paused streams (rpz) = three frames back to back (the first message of a connection, or later ones, in 14 "
              "connection states, clients with and without timeout) delivered in pieces with a read-deadline error between consecutive pieces: after k = 0..10 bytes of the first and of the "
-             "second header, inside a payload, two and three pauses: the headers the read side reports (logger) and offers (handlers); table cases = the 1024 type codes. "
+             "second header, inside a payload, two and three pauses: the headers the read side reports (logger) and offers (handlers); shared writers (mwr) = 8..256 calls with distinct "
+             "(type, length, id, payload byte) dealt to 1..16 goroutines writing through one msgWriter, resp. one connected Client's SendNoWait, the stream cut into frames by the "
+             "harness's own frame code: one evaluation per call; table cases = the 1024 type codes. "
              "All cases of a run are distinct by construction (lists de-duplicated). Non-trivial: a header case that the implementation "
              "accepts (answer is not E), a table code that can be instantiated; counted from the Go answers." % (DEC_LENS, ENC_LENS, n_states),
         samples=samples, input_distribution=dist, traces_validated_against_impl=evals,
